@@ -20,7 +20,7 @@ ASSUMPTIONS = ['limit tolerances are computed from the captured operator: dt->in
 EPS = np.finfo(float).eps
 
 
-def problem(rng, cls, nmax, need_steady=False):
+def problem(rng, cls, nmax, need_steady=False, Tu=1.0):
     from ..oracles import AXKIND
     faces, meta = gen.gen_grid(rng, cls, nmin=1, nmax=nmax)
     g = Geom(cls, faces)
@@ -44,18 +44,18 @@ def problem(rng, cls, nmax, need_steady=False):
             i0[k], i1[k] = 0, -1
             arr[tuple(i1)] = arr[tuple(i0)]
     tset = str(rng.choice(['D', 'D+upwind', 'D+central', 'D+upwind+src', 'D+src']))
-    Df = gen.facevar(pf, m, D)
+    Df = gen.facevar(pf, m, [a / Tu for a in D])            # Tu: time measured in another unit (rates x 1/Tu, steps x Tu)
     mats = [-pf.diffusionTerm(Df)]
     scale_u = 0.2 * min(float(np.min(a)) for a in D) / max(float(np.max(w)) for w in g.w)
-    uf = gen.facevar(pf, m, [scale_u * np.sign(a) for a in u])
+    uf = gen.facevar(pf, m, [scale_u * np.sign(a) / Tu for a in u])
     if 'upwind' in tset:
         mats.append(pf.convectionUpwindTerm(uf))
     if 'central' in tset:
         mats.append(pf.convectionTerm(uf))
     vec = np.zeros(int(np.prod(g.full_shape())))
     if 'src' in tset:
-        mats.append(pf.linearSourceTerm(pf.CellVariable(m, np.abs(rng.normal(0, 1, g.dims)))))
-        vec = pf.constantSourceTerm(pf.CellVariable(m, rng.normal(0, 1, g.dims)))
+        mats.append(pf.linearSourceTerm(pf.CellVariable(m, np.abs(rng.normal(0, 1, g.dims)) / Tu)))
+        vec = pf.constantSourceTerm(pf.CellVariable(m, rng.normal(0, 1, g.dims) / Tu))
     S = mats[0]
     for M_ in mats[1:]:
         S = S + M_
@@ -78,8 +78,13 @@ def run_case(case):
     cls = case['cls']
     kind = case['kind']
     nmax = case.get('nmax', 5 if NDIM[cls] < 3 else 3)
-    faces, meta, g, m, spec, S, bvec, mats, tset = problem(rng, cls, nmax, need_steady=kind in ('fixed-point', 'limits'))
+    Tu = 1.0
+    if case.get('tunit') and kind in ('be-residual', 'loop', 'fixed-point'):
+        Tu = float(10 ** (rng.uniform(8, 11) if rng.random() < 0.6 else rng.uniform(-11, -8)))
+    faces, meta, g, m, spec, S, bvec, mats, tset = problem(rng, cls, nmax, need_steady=kind in ('fixed-point', 'limits'), Tu=Tu)
     cov, maxerr, bad = {}, {}, []
+    if Tu != 1.0:
+        cov['time_unit:%s' % ('large' if Tu > 1 else 'small')] = 1
     rows = interior_index(g.dims)
     nfull = int(np.prod(g.full_shape()))
     old_vals, ffam = gen.cell_field(rng, g.dims, str(rng.choice(['random', 'step', 'positive'])))
@@ -98,6 +103,10 @@ def run_case(case):
                 dt_prev = dt
                 if wide:
                     cov['be_wide_dt_steps'] = cov.get('be_wide_dt_steps', 0) + 1
+                dt = dt * Tu
+                if not wide and Tu == 1.0 and rng.random() < 0.25:
+                    dt = [2, 5, np.int64(3), np.int32(10), 1][int(rng.integers(0, 5))]      # a whole number of seconds, typed as such
+                    cov['be_integer_dt_steps'] = cov.get('be_integer_dt_steps', 0) + 1
                 alpha, aarr, akind = alpha_of(rng, m, g)
                 old = np.array(phi.value, copy=True)
                 spy = SpySolver()
@@ -107,9 +116,9 @@ def run_case(case):
                     inconclusive = 'singular system'
                     break
                 # independent backward-Euler equations: alpha*(new-old)/dt + S x - b = 0 on interior rows
-                Mtr = sp.csr_array((aarr.ravel() / dt, (rows, rows)), shape=(nfull, nfull))
+                Mtr = sp.csr_array((aarr.ravel() / float(dt), (rows, rows)), shape=(nfull, nfull))
                 rtr = np.zeros(nfull)
-                rtr[rows] = aarr.ravel() * old.ravel() / dt
+                rtr[rows] = aarr.ravel() * old.ravel() / float(dt)
                 e = residual_err(Mtr + S, x, rtr + bvec, rows, solver_output=True)
                 maxerr['be-residual'] = max(maxerr.get('be-residual', 0.0), e)
                 cov['be_steps'] = cov.get('be_steps', 0) + 1
@@ -125,14 +134,15 @@ def run_case(case):
             M0, b0, x0 = spy0.last
             n = M0.shape[0]
             cond = np.linalg.cond(M0.toarray(), 1) if n <= 600 else np.inf
-            if not np.all(np.isfinite(x0)) or not np.isfinite(cond) or cond > 1e9:
-                inconclusive = 'steady problem singular / ill-conditioned (cond %.3g)' % cond
+            cond_eq = gen.equilibrated_cond(M0) if n <= 600 else np.inf        # a time unit must not make the case "ill-conditioned"
+            if not np.all(np.isfinite(x0)) or not np.isfinite(cond_eq) or cond_eq > 1e9 or (kind == 'limits' and cond > 1e9):
+                inconclusive = 'steady problem singular / ill-conditioned (cond %.3g)' % cond_eq
             else:
                 steady = np.array(phi.value, copy=True)
                 xs = np.array(phi._value, copy=True)
                 if kind == 'fixed-point':
                     for rep in range(3):
-                        dt = float(10 ** rng.uniform(-6, 6))
+                        dt = float(10 ** rng.uniform(-6, 6)) * Tu
                         alpha, aarr, akind = alpha_of(rng, m, g)
                         p = pf.CellVariable(m, steady.copy(), gen.make_bc(pf, m, g, spec))
                         spy = SpySolver()
@@ -251,7 +261,7 @@ def run_case(case):
                 phi = pf.CellVariable(m, old_vals.copy(), gen.make_bc(pf, m, g, spec))
                 twin = pf.CellVariable(m, old_vals.copy(), gen.make_bc(pf, m, g, spec))     # same history without the explicit step
                 if rng.random() < 0.5:
-                    dt0 = float(10 ** rng.uniform(-3, 1))
+                    dt0 = float(10 ** rng.uniform(-3, 1)) * Tu
                     for v in (phi, twin):
                         pf.solvePDE(v, [pf.transientTerm(v, dt0, 1.0)] + mats + [bvec])
                 ke = int(rng.integers(0, g.nd))
@@ -281,7 +291,7 @@ def run_case(case):
                     bad.append(('explicit-input-modified', 'solveExplicitPDE changed the interior values or boundary conditions of its input'))
                 b2, me, cv = check_ghosts(g, new._value, new.BCs)
                 bad += [('explicit-ghosts/' + a_, s_) for a_, s_ in b2]
-                dt = float(10 ** rng.uniform(-4, 4))
+                dt = float(10 ** rng.uniform(-4, 4)) * Tu
                 alpha, aarr, akind = alpha_of(rng, m, g)
                 old = np.array(phi.value, copy=True)
                 spy, spy_t = SpySolver(), SpySolver()
@@ -310,6 +320,31 @@ def run_case(case):
                     if not (e_rep <= 1e-7):
                         bad.append(('loop/be-residual-reported', 'BC edit on %s, explicit step from phi, then backward-Euler step on phi: the new variable (with its boundary values) violates '
                                     'alpha*(new-old)/dt + S new = b in boundary-adjacent cells (normalised %.3g)' % (edited, e_rep)))
+                    # the loop goes on with the variable RETURNED by the explicit solver (no pre-computed boundary term): implicit
+                    # step, boundary data of one side changed, implicit step - each must satisfy the backward-Euler equations with
+                    # the boundary values the variable reports
+                    for rnd in range(2):
+                        if bad:
+                            break
+                        if rnd:
+                            kq = int(rng.integers(0, g.nd))
+                            if kq in spec['periodic']:
+                                break
+                            fq = getattr(new.BCs, SIDES[kq][int(rng.integers(0, 2))])
+                            fq.c = np.asarray(fq.c) + 1.1
+                        oldn = np.array(new.value, copy=True)
+                        pf.solvePDE(new, [pf.transientTerm(new, dt, alpha)] + mats + [bvec])
+                        xn = np.asarray(new._value, dtype=float).ravel()
+                        if not np.all(np.isfinite(xn)):
+                            break
+                        rtn = np.zeros(nfull)
+                        rtn[rows] = aarr.ravel() * oldn.ravel() / dt
+                        en = residual_err(Mtr + S, xn, rtn + bvec, rows, solver_output=True)
+                        maxerr['loop-be-residual-explicit-result'] = max(maxerr.get('loop-be-residual-explicit-result', 0.0), en)
+                        cov['loop_steps_on_explicit_result'] = cov.get('loop_steps_on_explicit_result', 0) + 1
+                        if not (en <= 1e-7):
+                            bad.append(('loop/be-residual-explicit-result', 'implicit step #%d on the variable returned by solveExplicitPDE%s: the new variable violates alpha*(new-old)/dt + S new = b (normalised %.3g)' % (
+                                rnd + 1, ' after a boundary-data edit' if rnd else '', en)))
                     if not (e_twin <= TOL):
                         bad.append(('loop/explicit-step-side-effect', 'the backward-Euler system solved on phi after solveExplicitPDE(phi, ...) is not the one solved without the '
                                     'intervening explicit step (BC edit on %s): residual of the twin solution %.3g' % (edited, e_twin)))
@@ -376,7 +411,7 @@ def plan(tier, seed):
         i = 0
         for kind in KINDS:
             for rep in range(per):
-                cases.append({'cls': cls, 'kind': kind, 'seed': [seed, 12, ci, i], 'sub': ['explicit-update', 'mixed'][rep % 2]})
+                cases.append({'cls': cls, 'kind': kind, 'seed': [seed, 12, ci, i], 'sub': ['explicit-update', 'mixed'][rep % 2], 'tunit': rep % 5 == 4})
                 i += 1
         step = 9 if NDIM[cls] == 3 else 25
         for j in range(0, len(cases), step):
@@ -391,7 +426,7 @@ def floors(agg, tier):
             if agg['cov'].get('kind:%s:%s' % (kind, cls), 0) < 4:
                 out.append('kind:%s:%s < 4' % (kind, cls))
     for k, need in (('be_steps', 50), ('fixed_point_steps', 40), ('limit_inf', 15), ('limit_zero', 15), ('explicit_steps', 50), ('consistency', 15),
-                    ('alpha:scalar', 5), ('alpha:ndarray', 5), ('alpha:cellvar', 5), ('with_periodic', 10), ('loop:explicit-update', 15), ('loop:mixed', 15), ('loop_steps', 40), ('be_wide_dt_steps', 20)):
+                    ('alpha:scalar', 5), ('alpha:ndarray', 5), ('alpha:cellvar', 5), ('with_periodic', 10), ('loop:explicit-update', 15), ('loop:mixed', 15), ('loop_steps', 40), ('be_wide_dt_steps', 20), ('be_integer_dt_steps', 10), ('time_unit:large', 5), ('time_unit:small', 5), ('loop_steps_on_explicit_result', 30)):
         if agg['cov'].get(k, 0) < need:
             out.append('%s < %d' % (k, need))
     return out
